@@ -5,7 +5,7 @@
   Buidl.Model.Bcur (constants from Buidl.Gen.*, re-extracted from /repo on every run).
   `sha256` is an arbitrary function returning 32 bytes where the length matters.
 -/
-import Buidl.Proofs.BcurParse
+import Buidl.Proofs.BcurCanon
 namespace Buidl.Props.C20
 open Buidl Buidl.Base58 Buidl.Bech32 Buidl.Bcur
 
@@ -64,6 +64,12 @@ theorem bc32_single_substitution (pre post : Str) (x y : Char) (hl : asciiLower 
     (h : bc32decode (pre ++ x :: post) = some d) : bc32decode (pre ++ y :: post) = none :=
   bc32decode_single_subst pre post x y hl d h
 
+/-- `bc32decode` accepts canonical texts only: `bc32encode (bc32decode s)` is `s` in lower case
+    (for texts that have room for the six checksum characters) -/
+theorem bc32_decode_canonical (s : Str) (d : Bytes) (h : bc32decode s = some d) (hlen : 6 ≤ s.length) :
+    bc32encode d = some (s.map asciiLower) :=
+  bc32encode_bc32decode s d h hlen
+
 example : (bc32encode []).isSome ∧ bc32decode [] = none := by decide
 
 /-! ## BCURMulti.encode: chunking -/
@@ -111,6 +117,13 @@ theorem multi_roundtrip (sha256 : Bytes → Bytes) (hh : ∀ b, (sha256 b).lengt
     ∃ parts enc encHash, bcurEncode sha256 data = some (enc, encHash) ∧
       multiEncode sha256 data m animate = some parts ∧ multiParse sha256 parts = some (data, some encHash) :=
   multiParse_multiEncode sha256 hh data hd m hm animate
+
+/-- BCURSingle.parse accepts canonical strings only: x = y = 1, the payload field is the text
+    `bcur_encode` computes for the returned data, and a non-empty checksum field is its checksum -/
+theorem single_parse_canonical (sha256 : Bytes → Bytes) (s : Str) (d : Bytes) (h : singleParse sha256 s = some d) :
+    ∃ p enc encHash, parseBcurHelper s = some p ∧ p.x = 1 ∧ p.y = 1 ∧ bcurEncode sha256 d = some (enc, encHash) ∧
+      (p.payload = [] ∨ p.payload = enc) ∧ (∀ cs, p.checksum = some cs → cs = [] ∨ cs = encHash) :=
+  singleParse_canonical sha256 s d h
 
 /-! ## rejection -/
 
